@@ -23,7 +23,7 @@ namespace Wntr.Controls
 open Wntr.Tank
 
 inductive Field where
-  | user | internal | setting
+  | user | internal | setting | speed
   deriving Repr, DecidableEq, Inhabited
 
 structure Link where
@@ -31,16 +31,19 @@ structure Link where
   user : Rat
   internal : Rat
   setting : Rat
+  /-- `base_speed` (pumps) -/
+  speed : Rat := 1
   deriving Repr, Inhabited
 
 abbrev Links := List Link
 
 def Link.get (l : Link) : Field → Rat
-  | .user => l.user | .internal => l.internal | .setting => l.setting
+  | .user => l.user | .internal => l.internal | .setting => l.setting | .speed => l.speed
 
 def Link.set (l : Link) (f : Field) (v : Rat) : Link :=
   match f with
   | .user => { l with user := v } | .internal => { l with internal := v } | .setting => { l with setting := v }
+  | .speed => { l with speed := v }
 
 /-- the `status` property -/
 def Link.status (l : Link) : Rat := Tank.status l.kind l.user l.internal
@@ -50,7 +53,7 @@ structure Act where
   link : Nat
   field : Field
   value : Rat
-  deriving Repr, Inhabited
+  deriving Repr, Inhabited, BEq
 
 def modifyAt (f : Link → Link) : Nat → Links → Links
   | _, [] => []
@@ -64,14 +67,14 @@ def fieldAt (ls : Links) (i : Nat) (f : Field) : Option Rat := (ls[i]?).map (·.
 /-- what the change tracker looks at: `action.target()` is `(obj, 'status')` for status writes (user or internal)
 and `(obj, 'setting')` for setting writes -/
 inductive Watch where
-  | status | setting
+  | status | setting | speed
   deriving Repr, DecidableEq, Inhabited
 
 def Field.watch : Field → Watch
-  | .setting => .setting | _ => .status
+  | .setting => .setting | .speed => .speed | _ => .status
 
 def observe (ls : Links) (w : Nat × Watch) : Option Rat :=
-  (ls[w.1]?).map fun l => match w.2 with | .status => l.status | .setting => l.setting
+  (ls[w.1]?).map fun l => match w.2 with | .status => l.status | .setting => l.setting | .speed => l.speed
 
 /-- `changes_made(ref)` over the registered targets -/
 def changed (tracked : List (Nat × Watch)) (ref cur : Links) : Bool :=
@@ -82,7 +85,7 @@ structure Ctl where
   id : Nat
   prio : Nat
   act : Act
-  deriving Repr, Inhabited
+  deriving Repr, Inhabited, BEq
 
 /-- insert `x` (which preceded every element of the list in the original order) before the first element whose key is
 not smaller: equal keys keep their original order -/
@@ -102,6 +105,53 @@ def runPass (due : List Ctl) (ls : Links) : Links := (sortPrio due).foldl (fun s
 
 /-- `_run_postsolve_controls` with the conditions' truth values given by `holds` -/
 def postsolve (holds : Ctl → Bool) (cs : List Ctl) (ls : Links) : Links := runPass (cs.filter holds) ls
+
+/-! ### the control list the simulator really runs: user controls + companions -/
+
+/-- what a user control's action targets: `ControlAction(link, 'status' | 'setting' | 'base_speed', value)` -/
+inductive UAttr where
+  | status | setting | baseSpeed
+  deriving Repr, DecidableEq, Inhabited
+
+structure UCtl where
+  id : Nat
+  prio : Nat
+  link : Nat
+  kind : Kind
+  attr : UAttr
+  value : Rat
+  deriving Repr, Inhabited
+
+/-- the control itself: the private attribute `ControlAction` writes -/
+def UCtl.ctl (u : UCtl) : Ctl :=
+  ⟨u.id, u.prio, ⟨u.link, (match u.attr with | .status => .user | .setting => .setting | .baseSpeed => .speed), u.value⟩⟩
+
+/-- `_get_pump_controls`, first loop: a control on a pump's `base_speed` gets a COMPANION with the same condition and the same
+priority that puts the pump back in service (`status := Open`).  `none` = the `ValueError` for a non-pump target. -/
+def pumpCompanion (idBase : Nat) (u : UCtl) : Option (Option Ctl) :=
+  match u.attr with
+  | .baseSpeed => if u.kind == .pump then some (some ⟨idBase + u.id, u.prio, ⟨u.link, .user, 1⟩⟩) else none
+  | _ => some none
+
+/-- `_get_valve_controls`, first loop: a control on a `setting` gets a companion `status := Active` (same condition, same
+priority); settings on pumps / pipes raise `ValueError` -/
+def valveCompanion (idBase : Nat) (u : UCtl) : Option (Option Ctl) :=
+  match u.attr with
+  | .setting => if u.kind == .valve then some (some ⟨idBase + u.id, u.prio, ⟨u.link, .user, 2⟩⟩) else none
+  | _ => some none
+
+def companionsOf (f : UCtl → Option (Option Ctl)) (us : List UCtl) : List Ctl :=
+  us.filterMap fun u => (f u).getD none
+
+/-- registration order of `_get_control_managers`: the model's controls, the tank-limit controls, the CV controls, the pump
+companions + internal pump controls, the valve companions + internal valve controls -/
+def simulatorControls (idBase : Nat) (us : List UCtl) (tankC cvC pumpC valveC : List Ctl) : List Ctl :=
+  us.map (·.ctl) ++ tankC ++ cvC ++ companionsOf (pumpCompanion idBase) us ++ pumpC
+    ++ companionsOf (valveCompanion (2 * idBase)) us ++ valveC
+
+/-- the control whose companion `c` is (companions share the CONDITION of their control: triggered together) -/
+def companionSource (idBase : Nat) (us : List UCtl) (c : Ctl) : Option UCtl :=
+  us.find? fun u => (pumpCompanion idBase u).getD none == some c || (valveCompanion (2 * idBase) u).getD none == some c
 
 /-! ### presolve (no rules) -/
 
@@ -156,7 +206,7 @@ inductive Verdict where
   deriving Repr, DecidableEq, Inhabited
 
 def RLink.get (l : RLink) : Watch → Rat
-  | .status => l.status | .setting => l.setting
+  | .status => l.status | .setting => l.setting | .speed => 1
 
 /-- verdict for control `c`: its condition holds ⇒ the target shows the commanded value; commanded closed admits no
 excuse; commanded open/active may be held closed by CV / pump shut-off / tank limit; otherwise only a triggered control of
